@@ -91,6 +91,7 @@ type Config struct {
 	MaxSimTime time.Duration
 	Stickiness int  // 0..100: probability (%) to keep running the current goroutine at a yield
 	LogEvents  bool // keep full event log (determinism self-test / replay traces)
+	YieldStall int  // 0..1000: probability (per mille) that a goroutine of the system under test is held at a scheduling point for 1-5 ms of simulated time (a descheduled thread); at most maxYieldStalls per run
 	SpawnStall int  // 0..100: probability (%) that a goroutine started by the system under test begins late (a slow or stalled task: legal in Go, nothing says when a new goroutine first runs)
 }
 
@@ -109,6 +110,7 @@ type Result struct {
 	EventH       uint64 // hash of all scheduling steps
 	Events       []string
 	Goroutines   int
+	YieldStalls  int // scheduling points at which a goroutine of the system under test was held for a while (Config.YieldStall)
 	SpawnStalls  int // goroutines of the system under test whose start was delayed (Config.SpawnStall)
 	TimerTies    int // simultaneous timer expiries in one select that the simulator had to order itself
 }
@@ -142,6 +144,7 @@ type Sched struct {
 	stash       map[uintptr]stashed // timer values drained by breakTimerTie, keyed by channel
 	timerTies   int
 	spawnStalls int
+	yieldStalls int
 	capHit      string
 	stuck       string
 }
@@ -239,6 +242,7 @@ func (s *Sched) fill(res *Result) {
 	res.Goroutines = s.nextID
 	res.TimerTies = s.timerTies
 	res.SpawnStalls = s.spawnStalls
+	res.YieldStalls = s.yieldStalls
 	res.SimTime = s.simTime
 	res.CapHit = s.capHit
 	if s.stuck != "" {
@@ -631,12 +635,20 @@ func yieldG(g *G, site string) {
 	}
 	g.site = site
 	g.state = gParked
+	if s.cfg.YieldStall > 0 && g.Gen != 0 && s.yieldStalls < maxYieldStalls && s.dec.Choose(1000) < s.cfg.YieldStall {
+		g.stallTo = time.Now().Add(yieldStallSteps[s.dec.Choose(len(yieldStallSteps))])
+		s.yieldStalls++
+	}
 	s.mu.Unlock()
 	g.awaitTurn()
 	if g.frozen {
 		parkForever(g)
 	}
 }
+
+var yieldStallSteps = []time.Duration{time.Millisecond, 2 * time.Millisecond, 5 * time.Millisecond}
+
+const maxYieldStalls = 8
 
 // NowUnique is time.Now for code that uses wall-clock nanoseconds as identity (chunk ids): the simulated clock stands still
 // while code runs, the real one never does, so a reading by another goroutine than the previous one is a nanosecond later
